@@ -33,6 +33,7 @@ type E2EParams struct {
 	Shapes    int    `json:"shapes"`    // C09: number of QER-list shapes to run (enumeration starts at ShapeFrom, stride ShapeStep)
 	ShapeFrom int    `json:"shapeFrom"`
 	ShapeStep int    `json:"shapeStep"`
+	Notify    bool   `json:"notify"`    // C03: configure the BESS notify socket; some restarts find it missing
 	Snap      bool   `json:"snap"`      // attach the guarded state snapshot to every step
 	QosMode   int    `json:"qosMode"`
 	FarBias   bool   `json:"farBias"`   // C14: most modifications are FAR updates
@@ -80,6 +81,10 @@ func e2eRandWorker(args []string) error {
 			}
 
 			cfg.UEPool = fmt.Sprintf("10.%d.%d.0/%d", 200+rng.Intn(50), rng.Intn(256), ln)
+		}
+
+		if p.Notify && rng.Intn(2) == 0 {
+			cfg.NotifyBess = true
 		}
 
 		if p.EndMarker == 2 || (p.EndMarker == 1 && rng.Intn(2) == 0) {
@@ -180,7 +185,10 @@ func e2eRandWorker(args []string) error {
 			}
 		}
 
-		g.Finish()
+		killNow := p.Kill && !w.Died && rng.Intn(3) == 0
+		if !killNow {
+			g.Finish()
+		}
 
 		for k, v := range g.Stats {
 			sum.Stats[k] += v
@@ -197,9 +205,13 @@ func e2eRandWorker(args []string) error {
 			sum.Accepted += w.Accepted
 			w.Close()
 			w = nil
-		case p.Kill && rng.Intn(3) == 0:
-			// crash: the datapath keeps its tables, a new incarnation starts against them
+		case killNow:
+			// crash in the middle of the history (live sessions): the datapath keeps its tables, a new incarnation starts against them
 			w.KillAgent()
+
+			if w.Cfg.NotifyBess && rng.Intn(2) == 0 {
+				w.DropNotifySocket() // ... and finds the notify socket it is configured for missing
+			}
 
 			if err := w.StartAgent(); err != nil {
 				sum.Err = err.Error()
